@@ -1,9 +1,13 @@
 """entry point:  python -m harness.check <ID> [--tier quick|thorough] [--replay FILE]"""
 import argparse
 import importlib
+import json
 import os
+import shutil
 import signal
+import subprocess
 import sys
+import tempfile
 import traceback
 
 from . import common
@@ -55,7 +59,57 @@ def main():
         ctx.corr_broken.append(('harness-crash', {'traceback': traceback.format_exc()[-3000:]}))
     finally:
         signal.alarm(0)
+    child_out = os.environ.get('VERIF_CONFIRM_CHILD')
+    if child_out:
+        # a confirmation run (see confirm_hits): says which classes of failing input it met and writes nothing else
+        json.dump({'hit_keys': sorted({k for k, _, _ in ctx.hits}), 'broken': bool(ctx.proof_broken or ctx.corr_broken)}, open(child_out, 'w'))
+        shutil.rmtree(ctx.work, ignore_errors=True)
+        return 0
+    confirm_hits(ctx, a.pid, a.tier, seed, budget)
     return ctx.finish(**getattr(mod, 'FINISH', {}))
+
+
+def confirm_hits(ctx, pid, tier, seed, budget, runs=2):
+    """What is reported as a failing input must fail again.  The model cases and the simulated children are deterministic in
+    the seed; the oracles on REAL children (ptys, bash, python, sockets, the kernel's scheduling and the host's clock) are not,
+    and a one-off there - a REPL that loses an interrupt, a host that stalls longer than a wait the code fixes at one second - is
+    the environment's doing, not a failing input of pexpect: its replay would show nothing.  So before a failing input is
+    reported, the whole check is run again from scratch (fresh process, same seed, same tier, up to [runs] times): a class of
+    failing input (the hit's key) is reported if it shows up again in any of them - every deterministic failure does, at the
+    first - and is otherwise recorded in the evidence as an unconfirmed transient (coverage.direct_oracle) and logged.
+    Broken proofs or correspondence are never filtered; a confirmation run that crashes or overruns confirms everything."""
+    known = {k['key'] for k in ctx.known}
+    # (a hit that its own oracle has already replayed on fresh children - C16's real-child sessions - carries 'replays_failed')
+    new = [h for h in ctx.hits if h[0] not in known and not (isinstance(h[2], dict) and h[2].get('replays_failed'))]
+    if not new:
+        return
+    want = {k for k, _, _ in new}
+    seen = set()
+    for attempt in range(runs):
+        fd, out = tempfile.mkstemp(prefix='confirm.', suffix='.json', dir=common.WORK)
+        os.close(fd)
+        os.unlink(out)
+        env = dict(os.environ, VERIF_CONFIRM_CHILD=out, VERIF_SEED=str(seed), VERIF_BUDGET_S=str(budget))
+        ctx.log('confirming %d failing-input class(es) by running the check again (%d of at most %d)' % (len(want - seen), attempt + 1, runs))
+        try:
+            subprocess.run([sys.executable, '-m', 'harness.check', pid, '--tier', tier], env=env, cwd=common.VERIF,
+                           stdout=subprocess.DEVNULL, stderr=subprocess.DEVNULL, timeout=budget + 120)
+            res = json.load(open(out))
+            seen |= set(res['hit_keys'])
+            if res.get('broken'):
+                seen |= want
+        except Exception as e:
+            ctx.log('confirmation run failed (%r): the failing inputs are reported as they are' % (e,))
+            seen |= want
+        finally:
+            if os.path.exists(out):
+                os.unlink(out)
+        if want <= seen:
+            break
+    for h in list(ctx.hits):
+        if h[0] in want and h[0] not in seen:
+            ctx.hits.remove(h)
+            ctx.transient(h[0], h[1], h[2], attempt + 1)
 
 
 if __name__ == '__main__':
